@@ -179,6 +179,12 @@ def _judge(res: core.Res, doc: str, exp: docgen.Expect, fmt: str, label: str) ->
                 # found on a later line (here a colon inside the literal block), because the text before it passes is_type()
                 res.v('C09:google:returns-free-form-split-at-later-colon', f'{label}: a multi-line free-form Returns section is cut at a colon inside its literal block: the text before it is shown as the return type, the {kind} block {text!r} is not reproduced'[:900], html=html[:6000], **w)
                 continue
+            raises_toks = [t for fl, k_, ts in exp.fields if fl == 'Raises' for t in ts]
+            if fmt == 'google' and kind == 'literal' and tok and tok.group(0) in getattr(exp, 'bare_literals', []) and tok.group(0) in raises_toks:
+                # mechanism: in a google "Raises:" entry `Type: intro::` whose only continuation lines are the literal block, the block ends up
+                # at the indentation of the introducing line after conversion and is read as an ordinary paragraph (its markup is interpreted)
+                res.v('C09:google:raises-entry-literal-block-as-sole-continuation', f'{label}: the literal block {text!r} of a Raises entry, introduced on the entry line and followed by nothing, is shown as an ordinary paragraph'[:900], html=html[:6000], **w)
+                continue
             res.v(f'C09:{fmt}:{kind}-block-altered', f'{label}: {kind} block is not reproduced character for character: expected {text!r}, shown {near!r}'[:900], html=html[:6000], **w)
     for flabel, key, toks in exp.fields:
         res.c('fields_compared')
@@ -199,6 +205,10 @@ def _judge(res: core.Res, doc: str, exp: docgen.Expect, fmt: str, label: str) ->
             kindv = 'field-misplaced' if where else ('field-lost-with-warning' if named else 'field-silently-discarded')
             if kindv == 'field-lost-with-warning':
                 res.c('fields_reported_in_warning')
+                continue
+            if fmt == 'google' and flabel == 'Raises' and any(t in getattr(exp, 'bare_literals', []) for t in toks):
+                # same mechanism, other symptom: the lines of the literal block, read as ordinary text, are themselves taken for markup
+                res.v('C09:google:raises-entry-literal-block-as-sole-continuation', f'{label}: the Raises entry {key!r} ends with a literal block that is read as ordinary text: tokens {toks[:4]} are not all shown under the entry (messages {messages[:2]})'[:900], html=html[:6000], **w)
                 continue
             res.v(f'C09:{fmt}:{kindv}:{flabel.split(":")[0]}', f'{label}: field {flabel!r} {key!r} with tokens {toks[:4]} is not shown under its entry (found in {where[:2]}; messages {messages[:2]})'[:900],
                   html=html[:6000], **w)
